@@ -244,6 +244,23 @@ func Gen(seed uint64, c *GenCfg) *Workload {
 	w.Node.WALRotateInterval = 1 + r.Intn(5)
 	w.Node.DisableVarComp = r.Pct(15)
 	w.Sim = simrt.Config{Seed: seed ^ 0xABCDEF, PreemptPct: 0, ShuffleMap: r.Pct(50)}
+	// the scanner reads files in chunks of recordsPerRead records (8192 in
+	// production: no generated history ever fills one chunk, so the chunk
+	// boundary code in readForward/readBackward would never run); small chunk
+	// sizes in 3 runs of 5, drawn from a stream of their own
+	if k := []int{0, 0, 2, 3, 16}[simrt.NewRand(seed^0x5eedc0de).Intn(5)]; k > 0 {
+		// keep a whole-year scan below ~20000 reads (every read is a scheduling
+		// step): fine timeframes get proportionally larger chunks
+		for _, b := range w.Buckets {
+			slots := int(366 * 24 * time.Hour / b.TFDur())
+			for slots/k > 20000 {
+				k *= 2
+			}
+		}
+		if k < 8192 {
+			w.Knobs["recordsPerRead"] = k
+		}
+	}
 	// the production depth (three 1,000,000-slot channels, ~60 MB zeroed per node
 	// start) is sampled in 1 run of 12; it is semantically neutral for these
 	// workloads but dominates the cost when 16 workers run side by side
